@@ -1,5 +1,6 @@
 import OmbottModel.Drv.Common
 import OmbottModel.Model.BodyMixin
+import OmbottModel.Model.BodySpool
 import OmbottModel.Gen.Body
 /-!
 Protocol lines of the body reader (C04, C05, C13); every line is self-contained.
@@ -8,6 +9,8 @@ Protocol lines of the body reader (C04, C05, C13); every line is self-contained.
 body read <cl> <chunked01> <buf> <max|~> <data> <sched>
    → ok <bytes> spill=<01> req=<total requested> maxoff=<stream offset reached>
    | err <Class> req=… maxoff=…
+body readf <cl> <chunked01> <buf> <max|~> <data> <sched>
+   → the same with `TemporaryFile()` raising OSError (`bodyReadF`): ok … | err <Class|OSError> req=… maxoff=…
 body wsgi <errors_map|@> <memfile> <maxbody|~> <CONTENT_LENGTH|~> <HTTP_TRANSFER_ENCODING|~> <data> <sched> <ops>
    → status=<n> outs=<tok;…> req=… maxoff=…         (ops: B P<k> I S C, `?op` = op inside try/except, R<data>/<sched> L<text> K O, see `runOp`, `ctlOp`;
       req / maxoff list one number per stream created, in creation order)
@@ -29,6 +32,11 @@ def showRec (r : Rec) : String := s!"req={r.requested} maxoff={r.pos}"
 def showRead : Except Err Sink × Rec → String
   | (.ok sk, r) => s!"ok {hexBytes sk.body} spill={show01 sk.isTemp} {showRec r}"
   | (.error e, r) => s!"err {e.name} {showRec r}"
+
+def showReadF : FaultOut × Rec → String
+  | (.body sk, r) => s!"ok {hexBytes sk.body} spill={show01 sk.isTemp} {showRec r}"
+  | (.err e, r) => s!"err {e.name} {showRec r}"
+  | (.tmpFailed, r) => s!"err OSError {showRec r}"
 
 def errOfName (s : String) : Option Err :=
   [Err.requestError, .bodyParsingError, .bodySizeError, .valueError, .typeError, .keyError].find?
@@ -138,6 +146,11 @@ def handle : List String → Option String
     let buf ← buf.toNat?
     let max ← optNat max
     pure (showRead (bodyRead buf cl (bool01 ch) max { st := ⟨unhexBytes data, natList sched⟩ }))
+  | ["readf", cl, ch, buf, max, data, sched] => do
+    let cl ← cl.toInt?
+    let buf ← buf.toNat?
+    let max ← optNat max
+    pure (showReadF (bodyReadF buf cl (bool01 ch) max { st := ⟨unhexBytes data, natList sched⟩ }))
   | ["wsgi", map, memfile, maxbody, cl, te, data, sched, ops] => do
     let map ← parseMap map
     let memfile ← memfile.toNat?
